@@ -185,7 +185,7 @@ fn exec<D: Transactable>(d: &mut D, c: &Call, ids: &BTreeMap<String, ObjId>) -> 
 
 /// run `k` model-checked calls on a Transactable; returns false after reporting a violation
 #[allow(clippy::too_many_arguments)]
-fn drive<D: Transactable>(cx: &mut Ctx, d: &mut D, rng: &mut Rng, enc: TextEncoding, k: usize, n: &mut i64, variant: &str, log: &[String], misaligned_pct: u32) -> bool {
+pub fn drive<D: Transactable>(cx: &mut Ctx, d: &mut D, rng: &mut Rng, enc: TextEncoding, k: usize, n: &mut i64, variant: &str, log: &[String], misaligned_pct: u32) -> bool {
     for _ in 0..k {
         let before = observe_opts(d, None, false);
         if let Some(e) = before.core_errors().first() {
